@@ -55,11 +55,17 @@ func makeReflectValue(t types.Type, v value) value {
 
 // Given a reflect.Value, returns its rtype.
 func rV2T(v value) rtype {
-	return v.(structure)[0].(rtype)
+	if rt, ok := v.(structure)[0].(rtype); ok {
+		return rt
+	}
+	return rtype{} // the zero reflect.Value
 }
 
 // Given a reflect.Value, returns the underlying interpreter value.
 func rV2V(v value) value {
+	if _, ok := v.(structure)[0].(rtype); !ok {
+		return nil // the zero reflect.Value
+	}
 	return v.(structure)[1]
 }
 
@@ -183,6 +189,9 @@ func ext۰reflect۰Zero(fr *frame, args []value) value {
 }
 
 func reflectKind(t types.Type) reflect.Kind {
+	if t == nil {
+		return reflect.Invalid // the zero reflect.Value
+	}
 	switch t := t.(type) {
 	case *types.Named, *types.Alias:
 		return reflectKind(t.Underlying())
@@ -308,7 +317,7 @@ func ext۰reflect۰Value۰Len(fr *frame, args []value) value {
 
 func ext۰reflect۰Value۰MapIndex(fr *frame, args []value) value {
 	// Signature: func (reflect.Value) Value
-	tValue := rV2T(args[0]).t.Underlying().(*types.Map).Key()
+	tValue := rV2T(args[0]).t.Underlying().(*types.Map).Elem()
 	k := rV2V(args[1])
 	switch m := rV2V(args[0]).(type) {
 	case *symMap:
@@ -497,6 +506,9 @@ func ext۰reflect۰Value۰Set(fr *frame, args []value) value {
 func ext۰reflect۰valueInterface(args []value) value {
 	// Signature: func (v reflect.Value, safe bool) interface{}
 	v := args[0].(structure)
+	if it, ok := rV2V(v).(iface); ok && rV2T(v).t != nil && types.IsInterface(rV2T(v).t) {
+		return it // a Value of interface kind holds the interface value itself
+	}
 	return iface{rV2T(v).t, rV2V(v)}
 }
 
